@@ -102,6 +102,9 @@ func (m *Message) readHeader(r io.Reader, buf *bytes.Buffer) (cmd *dict.Command,
 	if err != nil {
 		return nil, stream, err
 	}
+	if m.Header.MessageLength < HeaderLength {
+		return nil, stream, fmt.Errorf("Invalid message length: %d", m.Header.MessageLength)
+	}
 	cmd, err = m.Dictionary().FindCommand(
 		m.Header.ApplicationID,
 		m.Header.CommandCode,
